@@ -287,9 +287,10 @@ pub fn main(seed: u64, hist: u64, maxlen: u64, _replay: Option<String>, dist: &m
         }
         let has_f32 = ops.iter().any(|o| matches!(o, BOp::WriteF { w: 4, .. } | BOp::Read { w: 4, kind: 2, .. }));
         println!("{}QBytes [{}]\t{}", if has_f32 { "N" } else { "" }, ops.iter().map(coq).collect::<Vec<_>>().join("; "), obs.iter().map(|x| x.to_string()).collect::<Vec<_>>().join(" "));
+        let first = findings.iter().map(|f| f.0).min();
         let mut seen = BTreeSet::new();
         for (i, sig, d) in findings {
-            if !seen.insert(sig.clone()) { continue; }
+            if Some(i) != first || !seen.insert(sig.clone()) { continue; }
             println!("!ORACLE\t{}\t{}\tstep {} of: {}", sig, d.replace('\t', " "), i, ops[..=i].iter().map(src).collect::<Vec<_>>().join("; "));
         }
         dist.hit(&format!("history-length:{}", match ops.len() { 0..=8 => "1-8", 9..=40 => "9-40", 41..=100 => "41-100", _ => "101+" }));
